@@ -287,10 +287,18 @@ Proof.
     + intros _. destruct (Hp2 Ea) as [rest Hr]. exists rest. rewrite Hr. apply Hro.
 Qed.
 
+Lemma inv_kills s : Inv s -> Inv (fst (step s KillS)).
+Proof.
+  intros HI. cbn [step fst].
+  pose proof HI as [HW Hth Hu Hle Heq Hd Hp He1 He2 He3 Hsg G1 G2 G3 G4 Hp2 Hov].
+  unfold cond in *. inv_split; auto; try (intros; discriminate).
+  intros Ht Ha Ho. destruct (He3 Ht Ha Ho) as (A & B & _). auto.
+Qed.
+
 Theorem step_inv s l : Inv s -> Inv (fst (step s l)).
 Proof.
   destruct l; [apply inv_write|apply inv_shutdown|apply inv_aborts|apply inv_delsr|apply inv_read
-              |apply inv_abortr|apply inv_delrs].
+              |apply inv_abortr|apply inv_delrs|apply inv_kills].
 Qed.
 
 Theorem run_inv ls : forall s, Inv s -> Inv (run s ls).
@@ -314,6 +322,7 @@ Proof.
     + auto.
   - auto.
   - destruct (wrs s); auto.
+  - auto.
 Qed.
 
 (* between conforming endpoints the receive window is never overrun *)
@@ -570,6 +579,7 @@ Proof.
     destruct (fill _ _ _ _) as [[[q' b] u'] acks']. destruct b; [destruct (txopen s)|]; auto.
   - auto.
   - destruct (wrs s); auto.
+  - auto.
 Qed.
 
 (* the threshold in use never exceeds the window granted, whatever the options are *)
